@@ -59,9 +59,42 @@ example (s : S_dnsserver_ServerQUIC) :
     callsOf "Unpack" (readQUICMsg s true true none (30, none) 28 none).2.2 = [["buf[2:30]"]] := by
   simp [readQUICMsg, callsOf, goWrapU]; decide
 
+/-- Scans the names of a trace: every `processConn` (which writes `buf[:bufReqLen]`) must have a
+`packReq` of its own since the previous `processConn`. -/
+def packedBeforeEveryWrite : Bool → List String → Bool
+  | _, [] => true
+  | fresh, n :: rest =>
+    if n = "packReq" then packedBeforeEveryWrite true rest
+    else if n = "processConn" then fresh && packedBeforeEveryWrite false rest
+    else packedBeforeEveryWrite fresh rest
+
+/-- `exchangeNet` (round 3, after the `fix:` commit): in every run each attempt writes a request
+that was packed for this very attempt — the second attempt does not reuse what the failed read left
+in the shared buffer — with the length that `packReq` call returned; the pooled buffer is given back
+exactly once, as the last effect. -/
+theorem exchange_packs_before_every_write (u : S_forward_UpstreamPlain) (network : String) (gb bp : AbsPtr)
+    (p1 p2 : Int × Option String) (g c : Option S_pool_Conn × Option String) (r1 r2 : AbsPtr × Option String)
+    (retry : Bool) :
+    let out := upstream_exchangeNet u network gb bp p1 g r1 retry p2 c r2
+    packedBeforeEveryWrite false (names out.2.2) = true ∧
+    (names out.2.2).getLast? = some "putBuffer" ∧ (names out.2.2).count "putBuffer" = 1 ∧
+    ((callsOf "processConn" out.2.2).map (·.getLast?) = [] ∨
+     (callsOf "processConn" out.2.2).map (·.getLast?) = [some (toString p1.1)] ∨
+     (callsOf "processConn" out.2.2).map (·.getLast?) = [some (toString p1.1), some (toString p2.1)]) := by
+  by_cases h0 : network = "tcp" <;> cases h1 : p1.2 <;> cases h2 : g.2 <;> cases retry <;>
+    cases h3 : p2.2 <;> cases h4 : c.2 <;>
+    simp [upstream_exchangeNet, callsOf, names, packedBeforeEveryWrite, h0, h1, h2, h3, h4]
+
+example (u : S_forward_UpstreamPlain) :
+    names (upstream_exchangeNet u "tcp" true true (50, none) (none, none) (false, some "reset") true
+      (50, none) (none, none) (true, none)).2.2 =
+      ["getBuffer", "packReq", "Get", "processConn", "packReq", "Create", "processConn", "putBuffer"] := by
+  simp [upstream_exchangeNet, names]
+
 end Agd.Tie.TrC06
 
 #print axioms Agd.Tie.TrC06.translation_complete
 #print axioms Agd.Tie.TrC06.quic_decodes_own_bytes
 #print axioms Agd.Tie.TrC06.upstream_decodes_read_bytes
 #print axioms Agd.Tie.TrC06.tcp_buffer_sized_by_prefix
+#print axioms Agd.Tie.TrC06.exchange_packs_before_every_write
